@@ -38,8 +38,9 @@ func (g *gateLocker) Unlock() {
 }
 
 type condStep struct {
-	A string `json:"a"` // enter release signal broadcast cancel
-	W int    `json:"w"`
+	A   string `json:"a"` // enter release signal broadcast cancel sigbc
+	W   int    `json:"w"`
+	NoQ bool   `json:"noq"` // no quiescence point after this step: the next step races with it
 }
 
 func runCond(t *testing.T, steps []condStep) ([]Ev, bool, string) {
@@ -125,6 +126,11 @@ func runCond(t *testing.T, steps []condStep) ([]Ev, bool, string) {
 			case "broadcast":
 				r.emit(Ev{"ev": "broadcast"})
 				c.Broadcast()
+			case "sigbc": // a Signal and a Broadcast from two goroutines at the same moment
+				r.emit(Ev{"ev": "signal"})
+				r.emit(Ev{"ev": "broadcast"})
+				go c.Signal()
+				go c.Broadcast()
 			case "cancel": // also before the waiter has entered: Wait is then called with a context that has already ended
 				if st.W > 0 {
 					r.Ctx(st.W)
@@ -135,7 +141,9 @@ func runCond(t *testing.T, steps []condStep) ([]Ev, bool, string) {
 					cancel()
 				}
 			}
-			quiesce()
+			if !st.NoQ {
+				quiesce()
+			}
 		}
 		// final judgement point with every gate open, then the epilogue (not judged): cancel everybody
 		for w := range entered {
@@ -175,20 +183,20 @@ func genCond(rng *rand.Rand, safe bool) []condStep {
 		case c < 30:
 			if !entered[w] && !(safe && ngated() >= 1) {
 				entered[w] = true
-				out = append(out, condStep{"enter", w})
+				out = append(out, condStep{A: "enter", W: w})
 			}
 		case c < 55:
 			if entered[w] && !released[w] {
 				released[w] = true
-				out = append(out, condStep{"release", w})
+				out = append(out, condStep{A: "release", W: w})
 			}
 		case c < 80:
-			out = append(out, condStep{"signal", 0})
+			out = append(out, condStep{A: "signal", W: 0})
 		case c < 88:
-			out = append(out, condStep{"broadcast", 0})
+			out = append(out, condStep{A: "broadcast", W: 0})
 		default:
 			if entered[w] {
-				out = append(out, condStep{"cancel", w})
+				out = append(out, condStep{A: "cancel", W: w})
 			}
 		}
 	}
